@@ -22,7 +22,7 @@ ASSUMPTIONS = [
 PI = math.pi
 
 MANT = [1.0, 2.5, 7.3]
-FORMS = ["float", "np64", "a0", "a1", "a2"]
+FORMS = ["float", "np64", "a0", "a1", "a2", "int"]  # the last one: python int (integer-valued points small enough for int64 arithmetic in the compiled variants)
 
 
 def vol_ref(r, d):
@@ -92,6 +92,12 @@ def cases(block):
     extra = [[], [1.7, 4.1], [3.3, 9.9]][block["phase"]]
     if block.get("tier") == "thorough":
         extra = [1.7, 4.1, 3.3, 9.9, 5.0, 1.0000000000000002]
+    if form == "int":
+        # integer arguments: 0, powers of ten and a few others, r^3 <= 1e15 (numba computes integer powers in int64; integer arrays
+        # are not accepted by the compiled dimension-generic variants, so they are not a supported argument form)
+        for v in [0, 1, 2, 7, 10, 25, 73, 100, 1000, 10**4, 10**5]:
+            yield {"dim": d, "form": form, "value": v}
+        return
     yield {"dim": d, "form": form, "value": 0.0}
     for e in range(*block["exps"]):
         for m in MANT + extra:
@@ -99,6 +105,10 @@ def cases(block):
 
 
 def mk(form, x):
+    if form == "int":
+        return int(x)
+    if form == "i8a1":
+        return np.array([x, 2 * x, 3 * x], dtype=np.int64)
     if form == "float":
         return float(x)
     if form == "np64":
